@@ -49,6 +49,12 @@ pub enum Probe {
     /// INVALID: a match reaches k+1 bytes before the start of the frame
     BeforeStart { first: CompSpec, rest: FrameSpec, k: u8 },
     Dict { data: RelatedData, cfg: RefCfg, which: u8 },
+    /// INVALID for a decoder that keeps no more than the window: `fill` raw blocks of one window
+    /// each (window 2^(10+exp) * (1 + mant/8)), then `first` whose first match reaches k+1 bytes
+    /// past the window into the frame's own older output. Decoded block by block with a drain in
+    /// between, a fresh decoder refuses it; a decoder still using a larger window from an earlier
+    /// frame does not.
+    PastWindow { exp: u8, mant: u8, fill: u8, seed: u32, first: CompSpec, k: u8 },
 }
 
 #[derive(Clone, Debug, Serialize, Deserialize)]
@@ -56,6 +62,10 @@ pub struct Case {
     pub dicts: Vec<DictSpec>,
     pub history: Vec<Step>,
     pub probe: Probe,
+    /// how the probe is decoded (on both decoders alike): 0 all blocks then collect; 1 block by
+    /// block with collect() in between; 2 block by block with small reads in between
+    #[serde(default)]
+    pub drive: u8,
 }
 
 fn crafted_first() -> impl Strategy<Value = CompSpec> {
@@ -102,12 +112,13 @@ fn probe_strategy(max_len: u32) -> impl Strategy<Value = Probe> {
         6 => (crafted_first(), rest(), 0u8..=3).prop_map(|(first, rest, patch)| Probe::Patched { first, rest, patch }),
         2 => (crafted_first(), rest(), prop_oneof![Just(0u8), 0u8..=60]).prop_map(|(first, rest, k)| Probe::BeforeStart { first, rest, k }),
         2 => (related_strategy(5000), refcfg_strategy(17), 0u8..=2).prop_map(|(data, cfg, which)| Probe::Dict { data, cfg, which }),
+        3 => (0u8..=4, 0u8..=7, 1u8..=4, any::<u32>(), crafted_first(), prop_oneof![Just(0u8), 0u8..=200]).prop_map(|(exp, mant, fill, seed, first, k)| Probe::PastWindow { exp, mant, fill, seed, first, k }),
     ]
 }
 
 fn case_strategy(tier: Tier) -> impl Strategy<Value = Case> {
     let max_len = if tier == Tier::Quick { 40_000 } else { 400_000 };
-    (prop::collection::vec(dict_strategy(), 0..=2), prop::collection::vec(step_strategy(max_len), 1..=6), probe_strategy(max_len)).prop_map(|(dicts, history, probe)| Case { dicts, history, probe })
+    (prop::collection::vec(dict_strategy(), 0..=2), prop::collection::vec(step_strategy(max_len), 1..=6), probe_strategy(max_len), prop_oneof![2 => Just(0u8), 2 => Just(1u8), 1 => Just(2u8)]).prop_map(|(dicts, history, probe, drive)| Case { dicts, history, probe, drive })
 }
 
 fn crafted_spec(first: &CompSpec, rest: &FrameSpec) -> FrameSpec {
@@ -183,7 +194,7 @@ struct Outcome {
     finished: bool,
 }
 
-fn run_probe(dec: &mut FrameDecoder, frame_bytes: &[u8], force: Option<u32>) -> Outcome {
+fn run_probe(dec: &mut FrameDecoder, frame_bytes: &[u8], force: Option<u32>, drive: u8) -> Outcome {
     let mut src = frame_bytes;
     if let Err(e) = dec.reset(&mut src) {
         // accessor values after a failed reset are not compared (the previous frame legitimately stays)
@@ -194,8 +205,35 @@ fn run_probe(dec: &mut FrameDecoder, frame_bytes: &[u8], force: Option<u32>) -> 
             return Outcome { result: format!("force_dict: {e}"), bytes: vec![], calc: None, stored: None, consumed: 0, blocks: 0, content_size: 0, finished: false };
         }
     }
-    let r = dec.decode_blocks(&mut src, BlockDecodingStrategy::All);
-    let bytes = dec.collect().unwrap_or_default();
+    let mut bytes: Vec<u8> = vec![];
+    let r = if drive % 3 == 0 {
+        dec.decode_blocks(&mut src, BlockDecodingStrategy::All)
+    } else {
+        // block by block, taking what the decoder hands out in between (it keeps the window)
+        let mut small = [0u8; 777];
+        loop {
+            match dec.decode_blocks(&mut src, BlockDecodingStrategy::UptoBlocks(1)) {
+                Ok(fin) => {
+                    if drive % 3 == 1 {
+                        bytes.extend(dec.collect().unwrap_or_default());
+                    } else {
+                        use std::io::Read;
+                        while let Ok(n) = dec.read(&mut small) {
+                            if n == 0 {
+                                break;
+                            }
+                            bytes.extend_from_slice(&small[..n]);
+                        }
+                    }
+                    if fin {
+                        break Ok(true);
+                    }
+                }
+                Err(e) => break Err(e),
+            }
+        }
+    };
+    bytes.extend(dec.collect().unwrap_or_default());
     Outcome {
         result: match r {
             Ok(f) => format!("ok({f})"),
@@ -365,10 +403,35 @@ pub fn check(case: &Case, ctx: &mut CaseCtx) -> CaseResult {
             Some((f, c, force)) => (f, Some(c), force, false, "probe:dictionary_frame"),
             None => return Ok(()),
         },
+        Probe::PastWindow { exp, mant, fill, seed, first, k } => {
+            let window_desc = (exp << 3) | (mant & 7);
+            let window = frame::window_from_descriptor(window_desc) as usize;
+            let mut first = first.clone();
+            first.seqs[0].off = OffSpec::PastWindow(*k);
+            // short enough that the whole block fits the block-size limit of a 1 KiB window
+            first.literals.truncate(300);
+            first.seqs.truncate(3);
+            for q in first.seqs.iter_mut() {
+                q.ml = q.ml.min(100);
+            }
+            let mut blocks = vec![];
+            for i in 0..(*fill as usize + 1) {
+                blocks.push(BlockSpec::Raw { data: DataSpec { kind: 2, len: window as u32, seed: seed.wrapping_add(i as u32), a: 3, b: 9 }.render() });
+            }
+            blocks.push(BlockSpec::Comp(first));
+            let spec = FrameSpec { single_segment: false, window_desc, fcs_bytes: 0, checksum: seed % 2 == 0, dict_id_bytes: 0, blocks };
+            let out = synth(&spec, None, false);
+            if !out.invalid || out.window_size != window as u64 {
+                ctx.feat("skipped:past_window_not_constructible");
+                return Ok(());
+            }
+            (out.bytes, None, None, true, "probe:match_reaches_past_the_window")
+        }
     };
+    let drive = case.drive % 3;
     let mut fresh = new_decoder(&dicts)?;
-    let of = run_probe(&mut fresh, &probe_bytes, force);
-    let or = run_probe(&mut reused, &probe_bytes, force);
+    let of = run_probe(&mut fresh, &probe_bytes, force, drive);
+    let or = run_probe(&mut reused, &probe_bytes, force, drive);
     if of != or {
         let what = if of.result != or.result {
             format!("result fresh `{}` vs reused `{}`", of.result, or.result)
@@ -382,11 +445,16 @@ pub fn check(case: &Case, ctx: &mut CaseCtx) -> CaseResult {
     }
     if let Some(t) = &truth {
         ensure!(or.result.starts_with("ok") && &or.bytes == t, "wrong_content", "{label}: valid probe on a reused decoder: result `{}`, {}", or.result, first_diff(&or.bytes, t));
-    } else {
-        // probes that are invalid by construction must not succeed (on either decoder)
+    } else if !matches!(case.probe, Probe::PastWindow { .. }) {
+        // probes that are invalid by construction must not succeed (on either decoder).
+        // (Not asserted for the past-the-window probe: a decoder that happens to still hold older
+        // output may serve such a match - only fresh-vs-reused equality is required there.)
         ensure!(!of.result.starts_with("ok"), "invalid_probe_accepted_by_fresh_decoder", "{label}: accepted on a fresh decoder: `{}`; frame {}", of.result, hexhead(&probe_bytes));
+    } else {
+        ctx.feat_if(!of.result.starts_with("ok"), "probe:past_window_refused_by_fresh_decoder");
     }
     ctx.feat(label);
+    ctx.feat(["drive:all_then_collect", "drive:per_block_collect", "drive:per_block_small_reads"][drive as usize]);
     ctx.feat_if(!dicts.is_empty(), "decoder:dictionaries_registered");
     ctx.nontrivial = had_abandoned_or_failed && sensitive;
     hash_parts.push(probe_bytes.clone());
@@ -399,7 +467,7 @@ pub fn check(case: &Case, ctx: &mut CaseCtx) -> CaseResult {
 }
 
 pub fn run(eng: &Engine) {
-    eng.set_rule("histories of 1..6 frames on one decoder (valid, dictionary, truncated, corrupted; run to completion, abandoned after k blocks with or without draining, or into their error) followed by a probe decoded on the reused decoder and on a fresh decoder with the same dictionaries; probes: valid frames, frames whose first sequences use repeat offsets, frames that are invalid on a fresh decoder (first block treeless, LL/OF/ML Repeat mode without a table, a match before the frame start), dictionary frames; the full outcome tuple is compared; non-trivial = the history contains an abandoned or failed frame and the probe is leak-sensitive; distinct by hash of all frames");
+    eng.set_rule("histories of 1..6 frames on one decoder (valid, dictionary, truncated, corrupted; run to completion, abandoned after k blocks with or without draining, or into their error) followed by a probe decoded on the reused decoder and on a fresh decoder with the same dictionaries; probes: valid frames, frames whose first sequences use repeat offsets, frames that are invalid on a fresh decoder (first block treeless, LL/OF/ML Repeat mode without a table, a match before the frame start, a match past the declared window into drained output), dictionary frames; the probe is decoded in one go or block by block with collect()/small reads in between (same way on both decoders); the full outcome tuple is compared; non-trivial = the history contains an abandoned or failed frame and the probe is leak-sensitive; distinct by hash of all frames");
     eng.assume("accessor values after a reset() that failed in the frame header are not compared");
     let tier = eng.tier;
     let n = eng.tier.pick(15_000, 300_000);
